@@ -89,8 +89,8 @@ QUERIES = [
 ]
 
 _js_csv_calls = [0]
-FRONTS = ['table', 'iter', 'csv', 'df', 'sqlite', 'sqlite_cli', 'js_table', 'js_iter', 'js_csv']
-JOIN_IDS = {'js_csv': 'jt.csv', 'table': 'B', 'iter': 'B', 'csv': 'jt.csv', 'df': 'B', 'sqlite': 'tb', 'sqlite_cli': 'tb', 'js_table': 'B', 'js_iter': 'B'}
+FRONTS = ['table', 'iter', 'csv', 'df', 'sqlite', 'sqlite_cli', 'js_table', 'js_iter', 'js_csv', 'cli_interactive']
+JOIN_IDS = {'cli_interactive': 'jt.csv', 'js_csv': 'jt.csv', 'table': 'B', 'iter': 'B', 'csv': 'jt.csv', 'df': 'B', 'sqlite': 'tb', 'sqlite_cli': 'tb', 'js_table': 'B', 'js_iter': 'B'}
 
 
 # ----------------------------------------------------------------------------- generation
@@ -108,7 +108,7 @@ def generate(rng, tier, idx):
     nops = rng.choice([1, 2, 2, 3, 3, 4, 5, 6])
     ops = []
     for _ in range(nops):
-        front = rng.choices(FRONTS, [18, 12, 16, 8, 14, 6, 14, 12, 8])[0]
+        front = rng.choices(FRONTS, [18, 12, 16, 8, 14, 6, 14, 12, 8, 5])[0]
         kind, q = rng.choice(QUERIES)
         if kind == 'mutating_expr':
             # user code that mutates a row on purpose is the caller's own doing: not generated (kept in the table as documentation)
@@ -133,6 +133,11 @@ def generate(rng, tier, idx):
             op['out_to'] = rng.choice(['file', 'stdout'])
         if front == 'js_csv':
             op['bulk_read'] = rng.random() < 0.5
+        if front == 'cli_interactive':
+            # interactive mode: no --query (typed on stdin), no --output (a default path next to the input is derived)
+            op['input_file'] = rng.choice(['input.csv', 'semi.csv', 'semi.csv', 'comma.tsv'])
+            op['explicit_delim'] = rng.random() < 0.5
+            op['out_format'] = rng.choice(['input', 'csv', 'tsv', 'csv'])
         ops.append(op)
     return {'world': world, 'ops': ops}
 
@@ -199,7 +204,14 @@ class World(object):
             f.write(jtext)
         with open(self.joinbad_path, 'wb') as f:
             f.write(jtext[:len(jtext) // 2] + b'\xff' + jtext[len(jtext) // 2:])
-        self.csv_sources = [self.in_path, self.join_path, self.joinbad_path]
+        # the same table with other separator / extension combinations (sources as well)
+        self.semi_path = os.path.join(self.w, 'semi.csv')
+        self.comma_tsv_path = os.path.join(self.w, 'comma.tsv')
+        with open(self.semi_path, 'wb') as f:
+            f.write(workload.to_csv(([self.header] if self.header else []) + rows, ';').encode('utf-8'))
+        with open(self.comma_tsv_path, 'wb') as f:
+            f.write(workload.to_csv(([self.header] if self.header else []) + rows, ',').encode('utf-8'))
+        self.csv_sources = [self.in_path, self.join_path, self.joinbad_path, self.semi_path, self.comma_tsv_path]
         self.csv_hash = {p: sha(p) for p in self.csv_sources}
         # sqlite
         self.db_path = os.path.join(self.w, 'db.sqlite')
@@ -231,6 +243,10 @@ class World(object):
             if self.header is not None:
                 self.dfA['ratio'] = [i / 2.0 for i in range(len(rows))]
         self.dfB = pandas.DataFrame([list(r) for r in jrows], columns=self.jheader) if jrows else pandas.DataFrame([['nokey', 'J0', 'm']], columns=self.jheader)
+        if spec.get('df_variety') and self.header is None:
+            # non-string column labels on both frames, a named column axis on the join frame
+            self.dfA.columns = [11, 12, 13, 14][:len(self.dfA.columns)]
+            self.dfB.columns = pandas.Index([2019, 2020, 2021], name='year')
         self.dfA_snap = self.dfA.copy(deep=True)
         self.dfB_snap = self.dfB.copy(deep=True)
         # js arrays live in the driver: each js operation ships a copy and gets the invariant report back
@@ -311,7 +327,8 @@ class World(object):
         if sha(self.db_path) != self.db_hash:
             return ('sqlite_changed', {})
         for name, df, snap in (('A', self.dfA, self.dfA_snap), ('B', self.dfB, self.dfB_snap)):
-            if not df.equals(snap) or list(df.dtypes) != list(snap.dtypes) or not df.index.equals(snap.index) or not df.columns.equals(snap.columns):
+            if not df.equals(snap) or list(df.dtypes) != list(snap.dtypes) or not df.index.equals(snap.index) or not df.columns.equals(snap.columns) \
+                    or [type(c) for c in df.columns] != [type(c) for c in snap.columns] or df.columns.name != snap.columns.name or df.index.name != snap.index.name:
                 return ('df_changed', {'frame': name})
         res_df = produced.get('df')
         if res_df is not None and len(res_df.index) and len(res_df.columns):
@@ -428,6 +445,19 @@ def run_op(t, world, op):
                 table = fault['ident']
             if front == 'sqlite_cli':
                 argv = ['rbql', 'sqlite', world.db_path, '--input', table, '--query', op['query'], '--output', out_path]
+            stdin = None
+            if front == 'cli_interactive':
+                name = op.get('input_file', 'input.csv')
+                delim = ';' if name == 'semi.csv' else ','
+                argv = ['rbql', '--input', os.path.join(world.w, name)]
+                if op.get('explicit_delim') or len(world.spec['rows']) < 2:
+                    argv += ['--delim', delim, '--policy', 'quoted']
+                if op.get('out_format', 'input') != 'input':
+                    argv += ['--out-format', op['out_format']]
+                if world.header:
+                    argv += ['--with-headers']
+                stdin = io.TextIOWrapper(io.BytesIO((op['query'] + '\n').encode('utf-8')), encoding='utf-8')
+                t.main.history_path = os.path.join(fsseam.scratch_dir(), 'home', '.rbql_py_query_history')
             real_connect = sqlite3.connect
 
             def traced_connect(*a, **kw):
@@ -437,7 +467,7 @@ def run_op(t, world, op):
                 c.changes_at_close = None
                 world.cli_connections.append(c)
                 return c
-            with fsseam.ProcessSeam(t, tracker=tracker, stdout=stdout, argv=argv) as seam:
+            with fsseam.ProcessSeam(t, tracker=tracker, stdin=stdin, stdout=stdout, argv=argv) as seam:
                 try:
                     if front == 'csv':
                         to_file = op.get('out_to') == 'file' and budget is None
@@ -452,6 +482,12 @@ def run_op(t, world, op):
                             outcome = ['ok']
                         finally:
                             world.close_con()
+                    elif front == 'cli_interactive':
+                        try:
+                            t.main.main()
+                            outcome = ['exit', 0]
+                        except SystemExit as e:
+                            outcome = ['exit', e.code if isinstance(e.code, int) else (0 if e.code is None else 1)]
                     else:
                         sqlite3.connect = traced_connect
                         try:
